@@ -93,7 +93,7 @@ func gen(tier string, seed int64) []hx.Scenario {
 			for _, pc := range []protoCfg{
 				{n0: 3, t0: 2, absent: -1}, {n0: 3, t0: 2, absent: 2}, {n0: 4, t0: 3, absent: -1}, {n0: 4, t0: 3, absent: 0},
 				{n0: 3, t0: 2, absent: -1, reshare: "same", t1: 2}, {n0: 3, t0: 2, absent: -1, reshare: "grow", t1: 3},
-				{n0: 4, t0: 3, absent: -1, reshare: "shrink", t1: 2}, {n0: 4, t0: 3, absent: -1, reshare: "shrink-absent", t1: 2},
+				{n0: 4, t0: 3, absent: -1, reshare: "shrink", t1: 2}, {n0: 3, t0: 2, absent: -1, reshare: "replace", t1: 2}, {n0: 4, t0: 3, absent: -1, reshare: "replace", t1: 3}, {n0: 4, t0: 3, absent: -1, reshare: "shrink-absent", t1: 2},
 			} {
 				if tier != "thorough" && (order == "rev" || (order == "mixed" && pc.reshare == "" )) {
 					continue
